@@ -216,10 +216,13 @@ class Checker:
             return [out]
 
         n = 0
-        base = L.deliver(self.env, case, steps_for(ctx), partial=True)
-        ctx_bad = base.closed is not None or base.raised
-        if ctx_bad:
-            n += 1
+        good_ctx = []
+        for k in ctx:
+            o = L.deliver(self.env, case, steps_for([k]), partial=True)
+            if o.closed is not None or o.raised:
+                n += 1
+            else:
+                good_ctx.append(k)
         for k in keys:
             if k in ctx:
                 continue
@@ -232,7 +235,7 @@ class Checker:
                     if o.closed is not None or o.raised:
                         n += 1
                 continue
-            o = L.deliver(self.env, case, steps_for(([] if ctx_bad else ctx) + [k]), partial=True)
+            o = L.deliver(self.env, case, steps_for(good_ctx + [k]), partial=True)
             if o.closed is not None or o.raised:
                 n += 1
         self._sources = n
@@ -308,7 +311,6 @@ def a_exh(batch, res):
         res.count("splittings_enumerated", n)
         res.count("exh_streams_complete")
         d, f = case.full_streams()[it["target"]]
-        res.maxc("exh_max_stream_len", len(d))
         res.sample({"gen": "a_exh", "label": it["label"], "target_hex": d.hex(), "fin": f, "deliveries": n,
                     "reference": _brief(ck.ref)}, limit=2)
 
@@ -1130,8 +1132,22 @@ def _rt_close_diag(ep, exp):
     return "resume-of-blocked-%s(handled-as-%s)" % ({"H": "HEADERS", "P": "PUSH_PROMISE"}.get(nxt, nxt), tname)
 
 
+def _determinism_shim():
+    """QuicConnection keeps the streams served in one datagrams_to_send() call in a *set* of QuicStream
+    objects and re-queues them in set order, i.e. in memory-address order: the frame order inside packets
+    (hence the whole schedule) differs from process to process.  Hash streams by their id instead so that
+    a seed replays.  Equality stays identity; nothing else changes."""
+    try:
+        from aioquic.quic.stream import QuicStream
+
+        QuicStream.__hash__ = lambda self: self.stream_id
+    except Exception:  # pragma: no cover - only determinism is lost
+        pass
+
+
 def rt(batch, res):
     env = L.Env()
+    _determinism_shim()
     rng = random.Random(batch["seed"])
     for ci in range(batch["cases"]):
         seed = rng.getrandbits(48)
